@@ -322,6 +322,48 @@ def rule_iter_find_map(text, ctx, where):
     return text, n
 
 
+STR_METHODS = "strip_prefix|strip_suffix|trim_matches|trim_start_matches|trim_end_matches|trim_end|trim_start|trim"
+
+
+def rule_str_methods(text, ctx, where):
+    """`RECV.strip_prefix(A)`, `.strip_suffix(A)`, `.trim_matches(A)`, `.trim_start_matches(A)`, `.trim_end()`, `.trim_start()`,
+    `.trim()` on a str -> shim functions `str_<method>[_char|_str|_chars](&RECV, A)` carrying std's semantics as assumed
+    contracts (Verus has no specification for these str methods)"""
+    n = 0
+    while True:
+        m = mask(text)
+        mt = re.search(r"\.\s*(" + STR_METHODS + r")\s*\(", m)
+        if not mt:
+            break
+        b = mt.end() - 1
+        e = match_delim(m, b)
+        s0 = chain_start(m, mt.start())
+        recv = text[s0:mt.start()].strip()
+        arg = text[b + 1:e].strip()
+        kind = "" if not arg else {"'": "_char", '"': "_str", "[": "_chars"}.get(arg[0])
+        if kind is None:
+            raise AnchorLost(f"{where}: str method {mt.group(1)} with an argument of unknown kind: {arg[:30]!r}")
+        if kind == "_chars":
+            items = [x.strip() for x in arg[1:-1].split(",") if x.strip()]
+            if len(items) != 2:
+                raise AnchorLost(f"{where}: str method {mt.group(1)} with a char array of {len(items)} elements (only 2 supported)")
+            kind, arg = "_2", ", ".join(items)
+        call = f"str_{mt.group(1)}{kind}(&{recv}" + (f", {arg})" if arg else ")")
+        text = text[:s0] + call + text[e + 1:]
+        n += 1
+        if n > 200:
+            raise AnchorLost(f"{where}: str_methods rule does not terminate")
+    return text, n
+
+
+def rule_opt_and_then(text, ctx, where):
+    """`X.and_then(|v| E)` on an Option -> `(match X { Some(v) => E, None => None })`"""
+    def build(recv, arg):
+        pat, body = _split_closure(arg)
+        return f"(match {recv} {{ Some({pat}) => {body}, None => None }})"
+    return _opt_method(text, "and_then", build, where)
+
+
 def rule_iter_map_collect(text, ctx, where):
     """`X.iter().map(|t| E).collect()` -> a block that pushes E for every element, in order, into a fresh Vec
     (std semantics of map+collect into Vec assumed)"""
@@ -822,7 +864,7 @@ def rule_box_as_ref(text, ctx, where):
     return re.subn(r"\b([a-z_][a-z_0-9]*)\.as_ref\(\)(?!\s*\.map\()", r"box_as_ref(&\1)", text)
 
 
-RULES = {"box_as_ref": rule_box_as_ref, "let_chain_rev": rule_let_chain_rev, "iter_find_map": rule_iter_find_map, "iter_rfind_map": rule_iter_rfind_map, "iter_all": rule_iter_all, "let_chain": rule_let_chain, "entry_or_insert_with": rule_entry_or_insert_with, "for_into_iter": rule_for_into_iter, "iter_map_collect": rule_iter_map_collect, "ok_or_else_q": rule_ok_or_else_q, "for_zip": rule_for_zip, "msg_to_string": rule_msg_to_string, "for_consume": rule_for_consume, "for_entries": rule_for_entries, "opt_map": rule_opt_map, "opt_or_else": rule_opt_or_else, "closure_inline": rule_closure_inline, "unreachable_partial": rule_unreachable_partial, "assert_partial": rule_assert_partial, "for_index": rule_for_index, "map_err_q": rule_map_err_q, "iter_any": rule_iter_any, "opt_map_or": rule_opt_map_or, "mutself": rule_mutself, "fmtmsg": rule_fmtmsg, "pubfields": rule_pubfields, "T": rule_T, "attrs": rule_attrs, "cell": rule_cell}
+RULES = {"box_as_ref": rule_box_as_ref, "str_methods": rule_str_methods, "opt_and_then": rule_opt_and_then, "let_chain_rev": rule_let_chain_rev, "iter_find_map": rule_iter_find_map, "iter_rfind_map": rule_iter_rfind_map, "iter_all": rule_iter_all, "let_chain": rule_let_chain, "entry_or_insert_with": rule_entry_or_insert_with, "for_into_iter": rule_for_into_iter, "iter_map_collect": rule_iter_map_collect, "ok_or_else_q": rule_ok_or_else_q, "for_zip": rule_for_zip, "msg_to_string": rule_msg_to_string, "for_consume": rule_for_consume, "for_entries": rule_for_entries, "opt_map": rule_opt_map, "opt_or_else": rule_opt_or_else, "closure_inline": rule_closure_inline, "unreachable_partial": rule_unreachable_partial, "assert_partial": rule_assert_partial, "for_index": rule_for_index, "map_err_q": rule_map_err_q, "iter_any": rule_iter_any, "opt_map_or": rule_opt_map_or, "mutself": rule_mutself, "fmtmsg": rule_fmtmsg, "pubfields": rule_pubfields, "T": rule_T, "attrs": rule_attrs, "cell": rule_cell}
 
 
 def apply_rules(text, rules, ctx, counts, where):
